@@ -62,7 +62,9 @@ LPlaceEra(era, r, ts) ==
   IF LLess(LSub(ts, r), LHalf)
   THEN era + (IF LLess(ts, r) THEN 1 ELSE 0)     \* ahead of ref, maybe past the wrap
   ELSE era - (IF LLess(r, ts) THEN 1 ELSE 0)     \* behind ref, maybe before the wrap
-LPlaceConstrained(era, r, ts) == LPlaceDefined(r, ts) /\ LPlaceEra(era, r, ts) >= 0
+\* at the tie (LSub(ts, r) = LHalf) the ELSE branch places the time before the
+\* reference, as documented (difference fits a signed integer)
+LPlaceConstrained(era, r, ts) == LPlaceEra(era, r, ts) >= 0
 
 \* Windows (Serial!InWindow / WellFormed / WindowDecision) on limb pairs
 LInWindow(lo, hi, x) == LCmp(lo, x) \in {"LT", "EQ"} /\ LCmp(x, hi) = "LT"
